@@ -114,6 +114,26 @@ class World:
         self.seq += 1
         self.writes.append((self.seq, os.path.relpath(ap, self.root), hashlib.sha256(data).hexdigest(), who))
 
+    def swap(self, rel, who="user"):
+        """Replace a file by another one of the same size, mode and modification time but with
+        other content and another inode (what `cp -p new tmp; mv tmp file` leaves behind)."""
+        ap = self.abspath(rel)
+        st = os.stat(ap)
+        with open(ap, "rb") as fh:
+            data = fh.read()
+        new = data.swapcase()
+        if new == data:
+            new = bytes([data[0] ^ 1]) + data[1:] if data else b""
+        tmp = ap + ".swap.tmp"
+        with open(tmp, "wb") as fh:
+            fh.write(new)
+        os.chmod(tmp, st.st_mode & 0o7777)
+        os.utime(tmp, ns=(st.st_atime_ns, st.st_mtime_ns))
+        os.rename(tmp, ap)
+        self.seq += 1
+        self.writes.append((self.seq, os.path.relpath(ap, self.root), hashlib.sha256(new).hexdigest(), who))
+        return new
+
     def touch(self, rel):
         ap = self.abspath(rel)
         t = self.tick()
@@ -405,6 +425,11 @@ class Sim:
         """An external (user) write while the director lives."""
         self.world.write(rel, content, who="user")
         self.logev("write", "<user>", rel, hashlib.sha256(content.encode()).hexdigest())
+
+    def ext_swap(self, rel):
+        """An external replacement that keeps size, mode and modification time."""
+        new = self.world.swap(rel, who="user")
+        self.logev("write", "<user>", rel, hashlib.sha256(new).hexdigest())
 
     def ext_remove(self, rel):
         self.world.remove(rel, who="user")
